@@ -62,6 +62,8 @@ class IntShim(int, metaclass=_IntMeta):
     def __new__(cls, x=0, *a):
         if isinstance(x, XR):
             return sym.s_int_trunc(x)
+        if isinstance(x, sym.XF):
+            return sym.xf_int_trunc(x)
         if isinstance(x, (SInt,)):
             return x
         if isinstance(x, SBool):
